@@ -333,7 +333,7 @@ fn run(c: &ConcCase) -> Result<u64, (Fail, Vec<String>)> {
     });
     let (deadlock, reentrant, points, _wr, log) = sched::snapshot_result();
     sched::deactivate();
-    cfb::verif_hooks::set_observer(None);
+    crate::lockwatch::install();
     let with_log = |f: Fail| (f, log.clone());
     if let Some(d) = deadlock {
         let site = reentrant.first().map(|r| r.2.clone()).unwrap_or_else(|| "none".into());
